@@ -340,6 +340,8 @@ pub enum Op {
     ArrRetainEven(Path),
     ArrRetainNone(Path),
     ArrClear(Path),
+    /// `Array::set_trailing_comma`: a formatting switch - the content and every other line stay as they are
+    ArrTrailingComma(Path, bool),
     /// a scalar entry of the array's parent table is removed and the SAME value object (with whatever decor it had
     /// on its `key = value # comment` line) is pushed / inserted at the front: both calls apply default formatting
     ArrPushMoved(Path, String),
@@ -512,6 +514,8 @@ fn enumerate_ops(root: &N) -> Vec<Op> {
                         ops.push(Op::ArrReplace(p.clone(), i, 5));
                         ops.push(Op::ArrRemove(p.clone(), i));
                     }
+                    ops.push(Op::ArrTrailingComma(p.clone(), true));
+                    ops.push(Op::ArrTrailingComma(p.clone(), false));
                     if !a.is_empty() {
                         ops.push(Op::Fmt(p.clone()));
                         ops.push(Op::ArrRetainEven(p.clone()));
@@ -703,6 +707,18 @@ fn apply_model(root: &mut N, op: &Op) -> BTreeSet<String> {
                 i += 1;
             }
         }
+        Op::ArrTrailingComma(p, _) => {
+            let t = get(root, p);
+            if let Some(m) = &t.mark {
+                touched.insert(m.clone());
+            }
+            // (a comma after the last element moves that element's comment: its line may change, its value may not)
+            if let K::Arr(a) = &t.k {
+                if let Some(last) = a.last() {
+                    sub(last, &mut touched);
+                }
+            }
+        }
         Op::ArrPushMoved(p, k) | Op::ArrInsertMoved(p, k) => {
             let parent = get_mut(root, &p[..p.len() - 1]);
             let (K::Inl(e) | K::Tab(e, _)) = &mut parent.k else { panic!() };
@@ -793,7 +809,7 @@ fn apply_model(root: &mut N, op: &Op) -> BTreeSet<String> {
     }
     // an edit inside an inline table or array rewrites the line(s) of the enclosing value: those markers may change
     let p: &Path = match op {
-        Op::Insert(p, ..) | Op::EntryOrInsert(p, ..) | Op::IndexAssign(p, ..) | Op::Remove(p, ..) | Op::SortValues(p) | Op::Fmt(p) | Op::ArrPush(p, ..) | Op::ArrInsert(p, ..) | Op::ArrReplace(p, ..) | Op::ArrRemove(p, ..) | Op::ArrRetainEven(p) | Op::ArrRetainNone(p) | Op::ArrClear(p) | Op::ArrPushMoved(p, ..) | Op::ArrInsertMoved(p, ..) | Op::AotPush(p) | Op::AotExtend3(p) | Op::AotRemove(p, ..) | Op::AotRetainEven(p) | Op::AotClear(p) | Op::TabRetainEven(p) | Op::TabClear(p) | Op::IntoInline(p) | Op::IntoTable(p) | Op::MakeValue(p) | Op::IntoAot(p) => p,
+        Op::Insert(p, ..) | Op::EntryOrInsert(p, ..) | Op::IndexAssign(p, ..) | Op::Remove(p, ..) | Op::SortValues(p) | Op::Fmt(p) | Op::ArrPush(p, ..) | Op::ArrInsert(p, ..) | Op::ArrReplace(p, ..) | Op::ArrRemove(p, ..) | Op::ArrRetainEven(p) | Op::ArrRetainNone(p) | Op::ArrClear(p) | Op::ArrTrailingComma(p, ..) | Op::ArrPushMoved(p, ..) | Op::ArrInsertMoved(p, ..) | Op::AotPush(p) | Op::AotExtend3(p) | Op::AotRemove(p, ..) | Op::AotRetainEven(p) | Op::AotClear(p) | Op::TabRetainEven(p) | Op::TabClear(p) | Op::IntoInline(p) | Op::IntoTable(p) | Op::MakeValue(p) | Op::IntoAot(p) => p,
     };
     let mut cur: &N = before;
     let mut chain: Vec<&N> = vec![cur];
@@ -875,6 +891,7 @@ fn apply_real(doc: &mut DocumentMut, op: &Op) {
         }
         Op::ArrRetainNone(p) => nav(doc, p).as_array_mut().expect("array").retain(|_| false),
         Op::ArrClear(p) => nav(doc, p).as_array_mut().expect("array").clear(),
+        Op::ArrTrailingComma(p, yes) => nav(doc, p).as_array_mut().expect("array").set_trailing_comma(*yes),
         Op::ArrPushMoved(p, k) | Op::ArrInsertMoved(p, k) => {
             let moved = nav(doc, &p[..p.len() - 1]).as_table_like_mut().expect("table-like").remove(k).expect("moved entry").into_value().expect("a value");
             let a = nav(doc, p).as_array_mut().expect("array");
